@@ -556,13 +556,15 @@ pub struct Gen<'a> {
     in_fn: bool,
     fresh: usize,
     pub features: Vec<&'static str>,
+    /// C18: most expressions are native calls
+    pub native_heavy: bool,
 }
 
-const NATIVE_MENU: &[&str] = &["log1", "sub2", "str1", "mix3", "call1", "try1", "call0", "fail0"];
+const NATIVE_MENU: &[&str] = &["log1", "sub2", "str1", "mix3", "call1", "try1", "call0", "fail0", "t4", "nil1", "tab1", "cat2", "rb1", "rb1"];
 
 impl<'a> Gen<'a> {
     pub fn new(rng: &'a mut Rng, reals: bool) -> Self {
-        Gen { rng, reals, fns: vec![], globals: vec![], locals: vec![], outer: vec![], in_fn: false, fresh: 0, features: vec![] }
+        Gen { rng, reals, fns: vec![], globals: vec![], locals: vec![], outer: vec![], in_fn: false, fresh: 0, features: vec![], native_heavy: false }
     }
     fn feat(&mut self, f: &'static str) {
         if !self.features.contains(&f) { self.features.push(f); }
@@ -620,6 +622,9 @@ impl<'a> Gen<'a> {
             };
         }
         let d = depth - 1;
+        if self.native_heavy && self.rng.chance(1, 2) {
+            return if self.rng.chance(1, 5) { self.native_value_call(d) } else { self.native_expr(d) };
+        }
         match self.rng.below(25) {
             0..=5 => { let k = self.rng.below(3) as usize; let a = self.expr(d); let b = self.expr(d); bin(k, a, b) }
             6 => { self.feat("div"); let a = self.expr(d); let b = self.expr(d); bin(3, a, b) }
@@ -698,6 +703,19 @@ impl<'a> Gen<'a> {
             }
             "mix3" => { let a = self.expr(d); let b = self.expr(d); let c = self.expr(d); native("mix3", vec![a, b, c]) }
             "fail0" => if self.rng.chance(1, 4) { native("fail0", vec![]) } else { int(6) },
+            "t4" => {
+                self.feat("native_arity4");
+                let a = self.expr(d); let b = self.expr(d); let c = self.expr(d);
+                let dd = if self.rng.chance(4, 5) { let x = self.a_string(); s(&x) } else { self.expr(d) };
+                native("t4", vec![a, b, c, dd])
+            }
+            "nil1" => { let a = if self.rng.chance(1, 3) { nil() } else { self.expr(d) }; native("nil1", vec![a]) }
+            "tab1" => { let t = self.table_expr(d); native("tab1", vec![t]) }
+            "cat2" => {
+                let a = if self.rng.chance(3, 4) { let x = self.a_string(); s(&x) } else { self.expr(d) };
+                let b = if self.rng.chance(3, 4) { let x = self.a_string(); s(&x) } else { self.expr(d) };
+                native("cat2", vec![a, b])
+            }
             "call0" => {
                 self.feat("reentry");
                 let f = self.fn_value_expr(0, d);
@@ -710,6 +728,14 @@ impl<'a> Gen<'a> {
                 native(name, vec![f, x])
             }
         }
+    }
+    /// a native function value called through DynamicCall, sometimes with too few / too many arguments
+    fn native_value_call(&mut self, d: u32) -> Card {
+        self.feat("native_value_call");
+        let (name, ar) = *self.rng.pick(&[("sub2", 2usize), ("str1", 1), ("mix3", 3), ("t4", 4), ("nil1", 1), ("tab1", 1), ("cat2", 2), ("fail0", 0), ("log1", 1)]);
+        let n = if self.rng.chance(1, 8) { self.rng.below(5) as usize } else { ar };
+        let args = (0..n).map(|_| self.expr(d.min(1))).collect();
+        dyn_call(nval(name), args)
     }
     /// an expression that (usually) evaluates to a callable of the given arity
     fn fn_value_expr(&mut self, arity: usize, d: u32) -> Card {
